@@ -24,6 +24,15 @@ Decided structurally (clauses that are necessary for the property; the rendered 
             `name = field if field in t.__dict__ else ... else None` + `if name is None: return ''`).
 * caps    - a widths list / running maximum that is capped (`min(v, K)`, `v if v < K else K`, `v - k`) is refuted: texts
             are not cut, so the column is narrower than its longest cell.
+* walk    - traversal separated from rendering (no __print_task_subtree): `_Repr.repr` loops `for t, lvl in <walk>(task, 0,
+            children)` over a recursive package generator.  Same obligations, read off the generator (yields (task, level)
+            once, unconditionally, before `yield from walk(ch, level + 1, children)` for ch in task.children iff children)
+            and off the loop body in _Repr.repr (one row, one cell per field per yielded pair, name cell indented by lvl).
+* entry   - __repr__/print may reach _Repr.repr through functions that only forward their parameters (a forwarder that
+            replaces fields / children / theme by something else is refuted for the print() entry points).
+* widths  - the width map may be a list grown in column order (`if i < len(W): W[i] = max(..) else: W.append(len)`) or a
+            guarded store (`if len(text) > W.setdefault(i, 0): W[i] = len(text)`); the usage table may be built by a
+            package function that __repr__ delegates to (report and rows handed over as arguments).
 * depth   - indentation multiplied by a value read off the printed task alone (`len(task.all_parents)`, a helper that
             only receives the task) is refuted: the level is relative to the printed tasks and only the recursion knows it.
 
@@ -132,6 +141,14 @@ def _iter_in_order(it_expanded, want_pat):
     """'ok' | ('refute', 'order' | 'subset', why) | None for the iterable of a loop that must visit `want_pat` in its own order"""
     order_lost = subset = False
     e = it_expanded
+    # {key(x): x for x in C}.values(): C deduplicated by a key - elements that share the key collapse into one
+    m = match("$d.values()", e)
+    if m and isinstance(m['d'], ast.DictComp) and len(m['d'].generators) == 1:
+        dc, g = m['d'], m['d'].generators[0]
+        if isinstance(g.target, ast.Name) and isinstance(dc.value, ast.Name) and dc.value.id == g.target.id \
+                and _iter_in_order(g.iter, want_pat) == 'ok' and not match(f"id({g.target.id})", dc.key) and mentions(dc.key, g.target.id):
+            return 'refute', 'subset', (f"iterates `{src(it_expanded)[:90]}`: elements that share the same `{src(dc.key)}` collapse into "
+                                        f"one, so a part of the collection is not visited" + (" (filtered as well)" if g.ifs else ""))
     while not match(want_pat, e):
         if isinstance(e, ast.Call) and isinstance(e.func, ast.Name) and e.args and not isinstance(e.args[0], ast.Starred):
             if e.func.id in ('list', 'tuple', 'iter') and len(e.args) == 1 and not e.keywords:
@@ -159,6 +176,256 @@ def _iter_in_order(it_expanded, want_pat):
     return 'ok'
 
 
+def _walk_shape(ctx):
+    """traversal separated from rendering: `_Repr.repr` loops `for t, lvl in <walk>(task, 0, children)` over a recursive
+    package generator and emits one row per yielded pair.  None when the tree has the classic recursive
+    __print_task_subtree; a dict describing the walk; or a text saying why the shape is not understood"""
+    from sa.model import AnchorMissing
+    prog = ctx.prog
+    if getattr(ctx, '_c20_walk', 'unset') != 'unset':
+        return ctx._c20_walk
+    try:
+        prog.func(SUBTREE)
+        ctx._c20_walk = None
+        return None
+    except AnchorMissing:
+        pass
+    top = prog.func(REPR)
+    res = _walk_shape_of(ctx, top)
+    ctx._c20_walk = res
+    return res
+
+
+def _walk_shape_of(ctx, top):
+    prog = ctx.prog
+    helper = Counter(ctx)
+    cfg, fl = cfg_of(top), flow_of(top)
+    tables = _table_names(ctx, top)
+    loops = []
+    for lp in [n for n in walk_no_nested(top.node) if isinstance(n, ast.For) and isinstance(n.iter, ast.Call)]:
+        G = helper.target_of(lp.iter, top)
+        if G is not None and any(isinstance(n, (ast.Yield, ast.YieldFrom)) for n in walk_no_nested(G.node)):
+            loops.append((lp, G))
+    if len(loops) != 1 or len(tables) != 1:
+        return "neither __print_task_subtree nor a single loop over a task-walk generator found in _Repr.repr"
+    lp, G = loops[0]
+    b = bind_args(lp.iter, G, drop_self=G.kind == 'method')
+    if b is None:
+        return f"call of the walk generator {G.qual} with */** arguments"
+    gp = {}
+    for prm, a in b.items():
+        if isinstance(a, ast.Name) and a.id == 'children' and 'children' in top.params:
+            gp['children'] = prm
+        elif isinstance(a, ast.Name):
+            ds = fl.reaching(a.id, cfg.node_of(lp))
+            if ds and all(d.kind == 'for' for d in ds):
+                gp['task'] = prm
+        elif isinstance(a, ast.Constant) and isinstance(a.value, int) and not isinstance(a.value, bool):
+            gp['level'] = prm
+    if any(r not in gp for r in ('task', 'level', 'children')):
+        return f"the call `{src(lp.iter)}` does not pass (task of the loop, level constant, children) to the walk generator"
+    gfl = flow_of(G)
+    if any(d.kind != 'param' for r in ('task', 'children') for d in gfl.defs_of(gp[r])):
+        return f"the walk generator {G.qual} re-assigns its task / children parameter"
+    relays = [n.body[0].value for n in walk_no_nested(G.node) if isinstance(n, ast.For) and isinstance(n.iter, ast.Call)
+              and helper.target_of(n.iter, G) is G and len(n.body) == 1 and isinstance(n.body[0], ast.Expr)
+              and isinstance(n.body[0].value, ast.Yield) and n.body[0].value.value is not None and same(n.body[0].value.value, n.target)]
+    ys = [n for n in walk_no_nested(G.node) if isinstance(n, ast.Yield) and not any(n is r for r in relays)]
+    own = [y for y in ys if isinstance(y.value, ast.Tuple) and any(isinstance(e, ast.Name) and e.id == gp['task'] for e in y.value.elts)]
+    if len(own) != 1 or len(own[0].value.elts) != 2 or not (isinstance(lp.target, ast.Tuple) and len(lp.target.elts) == 2
+                                                             and all(isinstance(e, ast.Name) for e in lp.target.elts)):
+        return f"the walk generator {G.qual} does not yield one (task, level) pair that the loop in _Repr.repr unpacks"
+    elts = own[0].value.elts
+    ti = next(i for i, e in enumerate(elts) if isinstance(e, ast.Name) and e.id == gp['task'])
+    rec_calls = [c for c in walk_no_nested(G.node) if isinstance(c, ast.Call) and helper.target_of(c, G) is G]
+    return {'top': top, 'loop': lp, 'call': lp.iter, 'G': G, 'gp': gp, 'T': lp.target.elts[ti].id, 'LVL': lp.target.elts[1 - ti].id,
+            'own_yield': own[0], 'yield_level': elts[1 - ti], 'other_yields': [y for y in ys if y is not own[0]],
+            'rec_calls': rec_calls, 'table': next(iter(tables))}
+
+
+def _rows_walk(ctx, W, o_row, o_rec, o_top):
+    """the three row obligations for the walk shape (see _walk_shape)"""
+    prog = ctx.prog
+    top, G, lp, gp = W['top'], W['G'], W['loop'], W['gp']
+    tables = {W['table']}
+    tasks_p = top.params[0]
+
+    def in_loop(n):
+        return any(x is n for st in lp.body for x in ast.walk(st))
+
+    def rows(_):
+        cfg = cfg_of(top)
+        c = Counter(ctx, classify=lambda node, g: 'walk' if node is W['call'] else None)
+        em = c.summary(top, tables, {})
+        W['em'], W['counter'] = em, c
+        if '!irregular' in em:
+            o_row.undecided(top, top.node, 'repr', "emission inside a loop left by break/return or inside try: " + '; '.join(c.notes))
+            return
+        watom = c.loop_atom(top, lp)
+        W['watom'] = watom
+        part = lambda cnt, inside: {k: v for k, v in c_norm(cnt).items() if (watom in k) == inside}
+        _verdict(o_row, top, lp, 'new_row per walked task', "table.new_row per yielded task", part(em.get('new_row', {}), True),
+                 {(tasks_p, watom): (1, 1)})
+        _verdict(o_row, top, lp, 'new_cell per walked task', "table.new_cell per yielded task", part(em.get('new_cell', {}), True),
+                 {(tasks_p, watom, 'fields'): (1, 1)})
+        own = lambda ev: [cfg.node_containing(n) for g, n in c.event_nodes.get(ev, []) if g is top and in_loop(n)]
+        rows_, cells = own('new_row'), own('new_cell')
+        if any(g is not top for ev in ('new_row', 'new_cell') for g, _n in c.event_nodes.get(ev, [])):
+            o_row.site(top, lp, "row/cells emitted by a helper that receives the table (order inside the helper not compared)")
+        else:
+            bad = False
+            for cn in cells:
+                if not any(cfg.dominates(rn, cn) for rn in rows_):
+                    o_row.refute(top, cn.ast, 'cell before row', "a cell is emitted on a path that has not opened this task's row: "
+                                                                 "it lands in the previous task's line")
+                    bad = True
+            if not bad and cells and rows_:
+                o_row.site(top, lp, "new_row dominates every new_cell of the yielded task")
+        # the walk yields its own task exactly once, unconditionally, before its descendants
+        gcfg = cfg_of(G)
+        y = W['own_yield']
+        yn = gcfg.node_containing(y)
+        if W['other_yields']:
+            o_row.undecided(G, W['other_yields'][0], W['other_yields'][0], f"the walk generator {G.qual} has further plain yields")
+            return
+        if gcfg.conditions(yn) or gcfg.enclosing_fors(yn) or any(isinstance(n, ast.While) and any(x is y for x in ast.walk(n)) for n in walk_no_nested(G.node)):
+            conds = ', '.join(facts.cond_texts(gcfg.conditions(yn))) or 'inside a loop'
+            o_row.refute(G, y, 'own yield conditional', f"the walk yields the task itself only under [{conds}]: some tasks get no line / several lines")
+        elif any(isinstance(n, ast.Return) and not gcfg.dominates(yn, gcfg.node_of(n)) for n in walk_no_nested(G.node)):
+            o_row.undecided(G, G.node, 'return in walk', f"the walk generator {G.qual} can return early")
+        else:
+            o_row.site(G, y, f"the walk yields ({src(y.value)}) exactly once per call, unconditionally")
+        late = [c_ for c_ in W['rec_calls'] if gcfg.can_reach(gcfg.node_containing(c_), yn)]
+        if late:
+            o_row.refute(G, late[0], 'recursion before own yield', "the descendants are yielded before the task itself: rows are not in depth-first WBS order")
+        elif W['rec_calls']:
+            o_row.site(G, y, "the task is yielded before its descendants")
+    ctx.guarded(o_row, rows)
+
+    def rec(o):
+        gcfg = cfg_of(G)
+        gex = Expander(prog, G, ctx.typer)
+        tp, chp = gp['task'], gp['children']
+        if not W['rec_calls']:
+            o.refute(G, G.node, 'no recursion', f"the walk generator {G.qual} never calls itself: descendants are not printed")
+        for c in W['rec_calls']:
+            cn = gcfg.node_containing(c)
+            b = bind_args(c, G, drop_self=G.kind == 'method')
+            if b is None:
+                o.undecided(G, c, c, "recursive call with */** arguments")
+                continue
+            # the recursive walk must be handed on: `yield from walk(..)` or `for x in walk(..): yield x`
+            par = next((n for n in walk_no_nested(G.node) if isinstance(n, ast.YieldFrom) and n.value is c), None)
+            relay = next((n for n in walk_no_nested(G.node) if isinstance(n, ast.For) and n.iter is c and len(n.body) == 1
+                          and isinstance(n.body[0], ast.Expr) and isinstance(n.body[0].value, ast.Yield)
+                          and n.body[0].value.value is not None and same(n.body[0].value.value, n.target)), None)
+            if par is not None or relay is not None:
+                o.site(G, c, "the recursive walk is handed on element by element (" + ("yield from" if par is not None else "for .. yield") + ")")
+            elif any(isinstance(n, ast.Expr) and n.value is c for n in walk_no_nested(G.node)):
+                o.refute(G, c, 'recursive walk dropped', "the recursive walk is created but never iterated: descendants are not listed")
+                continue
+            else:
+                o.undecided(G, c, c, "the result of the recursive walk is not handed on by `yield from`")
+                continue
+            fors = [fo for fo in gcfg.enclosing_fors(cn) if fo is not relay]
+            a = b.get(tp)
+            loop = next((fo for fo in fors if isinstance(fo.target, ast.Name) and isinstance(a, ast.Name) and fo.target.id == a.id), None)
+            if loop is None:
+                o.undecided(G, c, c, "the recursive call does not pass the variable of an enclosing for loop as task")
+                continue
+            it = gex.expand(loop.iter, gcfg.node_of(loop))
+            r = _iter_in_order(it, f"{tp}.children")
+            if r == 'ok':
+                o.site(G, loop, f"for {loop.target.id} in {src(it)}")
+            elif r:
+                o.refute(G, loop, loop.iter, "children loop " + r[2])
+            elif match(f"{tp}.all_children", it):
+                o.refute(G, loop, loop.iter, "recursion over all_children: every descendant below the first level is printed more than once")
+            else:
+                o.undecided(G, loop, loop.iter, f"recursion iterates `{src(it)}`, not `{tp}.children`")
+            arg = b.get(chp)
+            if isinstance(arg, ast.Name) and arg.id == chp:
+                o.site(G, c, "children flag handed on unchanged")
+            else:
+                o.refute(G, c, f"children={src(arg) if arg is not None else '?'}",
+                         f"the recursive call passes `{src(arg) if arg is not None else '?'}` as children flag instead of its own `{chp}`")
+            conds = gcfg.conditions(gcfg.node_of(loop))
+            on = [truth(t if pol else ast.UnaryOp(op=ast.Not(), operand=t), {chp: True}) for t, pol in conds]
+            off = [truth(t if pol else ast.UnaryOp(op=ast.Not(), operand=t), {chp: False}) for t, pol in conds]
+            if not conds:
+                o.refute(G, loop, 'children flag ignored', f"the descendants are walked whether or not `{chp}` is set: children are listed "
+                                                           f"although they were switched off")
+            elif all(v is True for v in on) and any(v is False for v in off):
+                o.site(G, loop, f"descendants are walked iff `{chp}`")
+            elif any(v is False for v in on):
+                o.refute(G, loop, 'children flag inverted', f"the descendants are walked only when `{chp}` is off")
+            else:
+                o.undecided(G, loop, 'children condition', "the descendants are walked under (" + ', '.join(facts.cond_texts(conds)) + ")")
+    ctx.guarded(o_rec, rec)
+
+    def header(o):
+        cfg, fl = cfg_of(top), flow_of(top)
+        ex = Expander(prog, top, ctx.typer)
+        em, c = W.get('em'), W.get('counter')
+        if em is None or '!irregular' in em or 'watom' not in W:
+            o.undecided(top, top.node, 'repr', "emissions of _Repr.repr not counted")
+            return
+        watom = W['watom']
+        part = lambda cnt: {k: v for k, v in c_norm(cnt).items() if watom not in k}
+        _verdict(o, top, top.node, 'header new_row', "header table.new_row", part(em.get('new_row', {})), c_const(1))
+        _verdict(o, top, top.node, 'header new_cell', "header table.new_cell", part(em.get('new_cell', {})), {('fields',): (1, 1)})
+        _verdict(o, top, top.node, 'walk per task', "a walk is started", em.get('walk', {}), {(tasks_p,): (1, 1)})
+        ln = cfg.node_of(lp)
+        b = bind_args(W['call'], G, drop_self=G.kind == 'method')
+        a = b.get(gp['task'])
+        outer = next((fo for fo in cfg.enclosing_fors(ln) if isinstance(fo.target, ast.Name) and isinstance(a, ast.Name) and fo.target.id == a.id), None)
+        if outer is None:
+            o.undecided(top, W['call'], W['call'], "task argument of the walk is not the variable of an enclosing for loop")
+        else:
+            it = ex.expand(outer.iter, cfg.node_of(outer))
+            r = _iter_in_order(it, tasks_p)
+            if r == 'ok':
+                o.site(top, outer, f"for {outer.target.id} in {src(it)}")
+            elif r:
+                o.refute(top, outer, outer.iter, "task loop " + r[2])
+            else:
+                o.undecided(top, outer, outer.iter, f"task loop iterates `{src(it)}`, not the given `{tasks_p}`")
+        first = cfg.node_of(outer) if outer is not None else ln
+        cells = [cfg.node_containing(n) for g, n in c.event_nodes.get('new_cell', []) if g is top and not in_loop(n)]
+        rows_ = [cfg.node_containing(n) for g, n in c.event_nodes.get('new_row', []) if g is top and not in_loop(n)]
+        ok = True
+        for x in cells:
+            if not any(cfg.dominates(rn, x) for rn in rows_):
+                o.refute(top, x.ast, 'header cell before row', "a header cell is emitted before the header row is opened")
+                ok = False
+            if cfg.can_reach(first, x):
+                o.refute(top, x.ast, 'header after tasks', "header cells can be emitted after a task row was printed: they land in a task's line")
+                ok = False
+        for rn in rows_:
+            if cfg.can_reach(first, rn) or not cfg.dominates(rn, first):
+                o.refute(top, rn.ast, 'header row after tasks', "the header row is not opened before the first task row")
+                ok = False
+        hdr_loops = [fo for x in cells for fo in cfg.enclosing_fors(x)]
+        if hdr_loops and not all(fl.same_version('fields', cfg.node_of(h), ln) for h in hdr_loops):
+            o.refute(top, W['call'], 'fields redefined', "`fields` is redefined between the header and the task rows: columns differ")
+            ok = False
+        ca = b.get(gp['children'])
+        if not (isinstance(ca, ast.Name) and ca.id == 'children' and fl.same_version('children', cfg.entry, ln)):
+            o.refute(top, W['call'], f"children={src(ca)}", f"`{src(ca)}` is passed as children flag instead of the caller's `children`")
+            ok = False
+        if ok:
+            o.site(top, W['call'], "header row precedes the task rows; same table, same fields, children handed on")
+        rets = [n for n in walk_no_nested(top.node) if isinstance(n, ast.Return)]
+        for r in rets:
+            if r.value is not None and _renders_table(r.value, tables):
+                o.site(top, r, src(r.value))
+            else:
+                o.undecided(top, r, r, "repr does not return <table>.text_repr(..)")
+        if not rets:
+            o.refute(top, top.node, 'no return', "_Repr.repr returns nothing")
+    ctx.guarded(o_top, header)
+
+
 def _rows(ctx):
     prog = ctx.prog
     o_row = ctx.ob('rows_one_row_per_task', 'R13',
@@ -171,6 +438,14 @@ def _rows(ctx):
                    "_Repr.repr emits one header row with one cell per field, then one subtree per given task in the given order, "
                    "and returns the rendering of that table", floor=6)
 
+    W = _walk_shape(ctx)
+    if isinstance(W, dict):
+        return _rows_walk(ctx, W, o_row, o_rec, o_top)
+    if W is not None:
+        top = prog.func(REPR)
+        for o in (o_row, o_rec, o_top):
+            o.undecided(top, top.node, 'repr', W)
+        return
     roles, top_calls = _subtree_roles(ctx)
     f = prog.func(SUBTREE)
     top = prog.func(REPR)
@@ -438,22 +713,20 @@ def _name_or_empty(e, task):
     return None
 
 
-def _indent(ctx):
+def _name_cells(ctx, o, f, P, scope, def_ok, within=None):
+    """the name cell is '   ' * level + (name or ''), every other cell __get_field_value(task, field), for the cells that
+    function f emits into table P['table'] for task P['task'] (only those inside the statement `within`, if given);
+    `scope`: the variables the depth can come from (parameters of f / variables of the walk loop), def_ok(d): the definition
+    of such a variable is the one handed in.  -> (level variable | None, an absolute-depth refutation was recorded)"""
     prog = ctx.prog
-    o = ctx.ob('indent_three_per_level', 'R8',
-               "the name cell is '   ' * level + (name or ''), every other cell is __get_field_value(task, field); the recursion "
-               "passes level + 1 and _Repr.repr starts at level 0", floor=4)
-
-    def run(o):
-        roles, top_calls = _subtree_roles(ctx)
-        f, top = prog.func(SUBTREE), prog.func(REPR)
-        if roles is None or any(r not in roles for r in ('task', 'fields', 'table')):
-            o.undecided(top, top.node, 'repr', "call of __print_task_subtree in _Repr.repr not understood")
-            return
-        P = roles
+    if True:
         cfg = cfg_of(f)
         ex = Expander(prog, f, ctx.typer)
         vals, unknown = _cell_values(ctx, f, {P['table']})
+        if within is not None:
+            inside = lambda n: n is not None and any(x is n for st_ in within.body for x in ast.walk(st_))
+            vals = [v for v in vals if inside(v[2])]
+            unknown = [u for u in unknown if inside(u)]
         for c in unknown:
             o.undecided(f, c, c, "cell text comes from a collection the rule cannot trace")
         level = None
@@ -479,7 +752,7 @@ def _indent(ctx):
                     ind = [p for p in parts if isinstance(p, ast.BinOp) and isinstance(p.op, ast.Mult)]
                     rest = [p for p in parts if not any(p is i for i in ind)]
                     if not ind:
-                        own = {x.id for x in ast.walk(xe) if isinstance(x, ast.Name)} & (set(f.params) | {d_.var for d_ in flow_of(f).defs})
+                        own = {x.id for x in ast.walk(xe) if isinstance(x, ast.Name)} & (set(f.params) | {d_.var for d_ in flow_of(f).defs if '.' not in d_.var})
                         if len(parts) == 1 and _name_or_empty(parts[0], P['task']):
                             o.refute(f, node, sub, "the name cell carries no indentation: expected '   ' * level in front of the name")
                         elif own <= {P['task']}:
@@ -503,16 +776,16 @@ def _indent(ctx):
                     if unit != '   ':
                         o.refute(f, node, ind[0], f"indentation unit is {unit!r} ({len(unit)} character(s)); expected three spaces per level")
                         good = False
-                    if isinstance(b, ast.Name) and b.id in f.params:
+                    if isinstance(b, ast.Name) and b.id in scope:
                         level = b.id
-                        redef = [d for d in flow_of(f).reaching(level, at) if d.kind != 'param']
+                        redef = [d for d in flow_of(f).reaching(level, at) if not def_ok(d)]
                         if redef:
                             o.refute(f, node, ind[0], f"the indentation reads `{level}` after it was re-assigned (line "
                                                       f"{getattr(redef[0].stmt, 'lineno', '?')}: `{src(redef[0].stmt)[:60]}`), not the depth the "
                                                       f"function was called with")
                             good = False
                     else:
-                        pn = [p for p in f.params if mentions(b, p)]
+                        pn = [p for p in scope if mentions(b, p)]
                         if len(pn) == 1 and isinstance(b, ast.BinOp) and pn[0] != P['task']:
                             level = pn[0]
                             o.refute(f, node, ind[0], f"indentation is multiplied by `{src(b)}` instead of the level `{level}`")
@@ -540,7 +813,7 @@ def _indent(ctx):
                     other_cases += 1
                     g = prog.func(FIELD_VALUE)
                     m = match(f"_Repr._Repr{g.name}($t, $fld)", xe)
-                    if m and _is_param(f, m['t']) and m['t'].id == P['task'] and isinstance(m['fld'], ast.Name) and m['fld'].id == fvar:
+                    if m and isinstance(m['t'], ast.Name) and m['t'].id in scope and m['t'].id == P['task'] and isinstance(m['fld'], ast.Name) and m['fld'].id == fvar:
                         o.site(f, node, f"other cells = {src(xe)}")
                     elif m:
                         o.refute(f, node, sub, f"cell text is `{src(xe)}`: expected the value of field `{fvar}` of the printed task `{P['task']}`")
@@ -551,6 +824,84 @@ def _indent(ctx):
                 o.refute(f, f.node, 'no name branch', "every cell, including the name, is printed by __get_field_value: the name is not indented")
             elif not unknown:
                 o.undecided(f, f.node, 'no name branch', "no cell text is selected by `field == 'name'`")
+    return level, abs_depth
+
+
+def _indent(ctx):
+    prog = ctx.prog
+    o = ctx.ob('indent_three_per_level', 'R8',
+               "the name cell is '   ' * level + (name or ''), every other cell is __get_field_value(task, field); the recursion "
+               "passes level + 1 and _Repr.repr starts at level 0", floor=4)
+
+    def level_arg(f, c, level, a, arg_node, ex_cfg):
+        """verdict for the level argument `a` (expanded) of a recursive call c in f"""
+        if a is None:
+            o.undecided(f, c, c, "level argument of the recursive call not found")
+        elif match(f"{level} + 1", a) or match(f"1 + {level}", a):
+            redef = [d for d in flow_of(f).reaching(level, ex_cfg.node_containing(c)) if d.kind != 'param']
+            if redef:
+                o.refute(f, c, arg_node, f"the recursive call passes `{src(a)}` computed from a re-assigned `{level}` (line "
+                                         f"{getattr(redef[0].stmt, 'lineno', '?')}: `{src(redef[0].stmt)[:60]}`), not from the depth this call "
+                                         f"received: indentation stops following the tree depth")
+            else:
+                o.site(f, c, f"recursion passes {src(a)}")
+        elif match(level, a):
+            o.refute(f, c, arg_node, f"the recursive call passes `{level}` unchanged: children are printed at their parent's indentation")
+        elif isinstance(a, ast.BinOp) and mentions(a, level) or isinstance(a, ast.Constant):
+            o.refute(f, c, arg_node, f"the recursive call passes `{src(a)}` as level, expected `{level} + 1`")
+        else:
+            o.undecided(f, c, arg_node, f"level argument `{src(a)}` not understood")
+
+    def top_level_arg(top, c, a, arg_node):
+        if isinstance(a, ast.Constant) and a.value == 0 and not isinstance(a.value, bool):
+            o.site(top, c, "top level passes 0")
+        elif isinstance(a, ast.Constant):
+            o.refute(top, c, arg_node, f"top-level tasks are printed at level {a.value!r}, expected 0")
+        else:
+            o.undecided(top, c, c, "level argument of the top-level call is not a constant")
+
+    def run_walk(o, W):
+        top, G = W['top'], W['G']
+        level, abs_depth = _name_cells(ctx, o, top, {'task': W['T'], 'table': W['table'], 'fields': 'fields'},
+                                       [W['T'], W['LVL']] + list(top.params),
+                                       lambda d: d.stmt is W['loop'], within=W['loop'])
+        if level is not None and level != W['LVL']:
+            o.refute(top, W['loop'], 'level variable', f"the indentation reads `{level}`, not the level `{W['LVL']}` the walk yields with the task")
+        gl = W['gp']['level']
+        gcfg, gex = cfg_of(G), Expander(prog, G, ctx.typer)
+        # the walk yields its own level parameter
+        yl = W['yield_level']
+        if isinstance(yl, ast.Name) and yl.id == gl and all(d.kind == 'param' for d in flow_of(G).reaching(gl, gcfg.node_containing(yl))):
+            o.site(G, yl, f"the walk yields (task, {gl}) with the level it was called with")
+        elif isinstance(yl, ast.Name) and yl.id == gl:
+            o.refute(G, yl, 'yield level', f"the walk yields `{gl}` after it was re-assigned, not the depth it was called with")
+        else:
+            o.undecided(G, yl, yl, f"the walk yields `{src(yl)}` as level, not its level parameter `{gl}`")
+        for c in W['rec_calls']:
+            b = bind_args(c, G)
+            a = gex.expand(b[gl]) if b and gl in b else None
+            level_arg(G, c, gl, a, b[gl] if b and gl in b else c, gcfg)
+        b = bind_args(W['call'], G)
+        a = Expander(prog, top, ctx.typer).expand(b[gl]) if b and gl in b else None
+        top_level_arg(top, W['call'], a, b[gl] if b and gl in b else W['call'])
+
+    def run(o):
+        W = _walk_shape(ctx)
+        if isinstance(W, dict):
+            return run_walk(o, W)
+        if W is not None:
+            top = prog.func(REPR)
+            o.undecided(top, top.node, 'repr', W)
+            return
+        roles, top_calls = _subtree_roles(ctx)
+        f, top = prog.func(SUBTREE), prog.func(REPR)
+        if roles is None or any(r not in roles for r in ('task', 'fields', 'table')):
+            o.undecided(top, top.node, 'repr', "call of __print_task_subtree in _Repr.repr not understood")
+            return
+        P = roles
+        cfg = cfg_of(f)
+        ex = Expander(prog, f, ctx.typer)
+        level, abs_depth = _name_cells(ctx, o, f, P, list(f.params), lambda d: d.kind == 'param')
         if level is None:
             level = roles.get('level')
         if level is None:
@@ -561,32 +912,12 @@ def _indent(ctx):
         for c in facts.calls_named(f, f.name):
             b = bind_args(c, f)
             a = ex.expand(b[level]) if b and level in b else None
-            if a is None:
-                o.undecided(f, c, c, "level argument of the recursive call not found")
-            elif match(f"{level} + 1", a) or match(f"1 + {level}", a):
-                redef = [d for d in flow_of(f).reaching(level, cfg.node_containing(c)) if d.kind != 'param']
-                if redef:
-                    o.refute(f, c, b[level], f"the recursive call passes `{src(a)}` computed from a re-assigned `{level}` (line "
-                                             f"{getattr(redef[0].stmt, 'lineno', '?')}: `{src(redef[0].stmt)[:60]}`), not from the depth this call "
-                                             f"received: indentation stops following the tree depth")
-                else:
-                    o.site(f, c, f"recursion passes {src(a)}")
-            elif match(level, a):
-                o.refute(f, c, b[level], f"the recursive call passes `{level}` unchanged: children are printed at their parent's indentation")
-            elif isinstance(a, ast.BinOp) and mentions(a, level) or isinstance(a, ast.Constant):
-                o.refute(f, c, b[level], f"the recursive call passes `{src(a)}` as level, expected `{level} + 1`")
-            else:
-                o.undecided(f, c, b[level], f"level argument `{src(a)}` not understood")
+            level_arg(f, c, level, a, b[level] if b and level in b else c, cfg)
         ext = Expander(prog, top, ctx.typer)
         for c in top_calls:
             b = bind_args(c, f)
             a = ext.expand(b[level]) if b and level in b else None
-            if isinstance(a, ast.Constant) and a.value == 0 and not isinstance(a.value, bool):
-                o.site(top, c, "top level passes 0")
-            elif isinstance(a, ast.Constant):
-                o.refute(top, c, b[level], f"top-level tasks are printed at level {a.value!r}, expected 0")
-            else:
-                o.undecided(top, c, c, "level argument of the top-level call is not a constant")
+            top_level_arg(top, c, a, b[level] if b and level in b else c)
     ctx.guarded(o, run)
 
 
@@ -616,35 +947,104 @@ def _callers(ctx):
     def run(o):
         top = prog.func(REPR)
         seen = set()
-        for g in prog.all_funcs():
-            for c in facts.calls_named(g, 'repr'):
-                if not (isinstance(c.func, ast.Attribute) and isinstance(c.func.value, ast.Name) and c.func.value.id == '_Repr'):
+        helper = Counter(ctx)
+        # sinks: _Repr.repr itself and functions that only forward their own parameters to a sink
+        # (qual -> (func, role -> parameter name)); roles: tasks / fields / children / theme
+        sinks = {top.qual: (top, {'tasks': top.params[0], 'fields': 'fields', 'children': 'children', 'theme': 'theme'})}
+
+        def calls_of_sinks(g):
+            out = []
+            names = {unmangle(v[0].name) for v in sinks.values()} | {v[0].name for v in sinks.values()}
+            for c in [n for n in walk_no_nested(g.node) if isinstance(n, ast.Call)]:
+                cname = c.func.attr if isinstance(c.func, ast.Attribute) else getattr(c.func, 'id', None)
+                if cname is None or unmangle(cname) not in names:
                     continue
-                seen.add(g.qual)
-                b = bind_args(c, top)
-                if b is None:
-                    o.undecided(g, c, c, "call of _Repr.repr with */** arguments")
+                tg = helper.target_of(c, g)
+                hit = None
+                if tg is not None and tg.qual in sinks:
+                    hit = sinks[tg.qual]
+                elif isinstance(c.func, ast.Attribute) and isinstance(c.func.value, ast.Name) and c.func.value.id == '_Repr':
+                    hit = next((v for v in sinks.values() if v[0].name == c.func.attr and v[0].qual.startswith('task._Repr.')), None)
+                if hit is not None:
+                    out.append((c, hit))
+            return out
+
+        pending = []
+        lossy = {}
+        for _round in range(4):
+            grew = False
+            pending = []
+            for g in prog.all_funcs():
+                if g.qual in sinks:
                     continue
-                ex = Expander(prog, g, ctx.typer)
-                t = ex.expand(b[top.params[0]])
-                w = want.get(g.qual)
-                if w is None:
-                    o.undecided(g, c, c, "caller of _Repr.repr that the entry-point table does not list")
-                    continue
-                sn = g.self_name or 'self'
-                if not match(w.replace('self', sn), t):
-                    o.refute(g, c, b[top.params[0]], f"prints `{src(t)}`, expected `{w}`")
-                    continue
-                if g.name == 'print':
-                    bad = [p for p in ('fields', 'children', 'theme') if not (isinstance(b.get(p), ast.Name) and b[p].id == p and p in g.params)]
-                    if bad:
-                        o.refute(g, c, c, f"print() does not pass its `{', '.join(bad)}` argument(s) on to _Repr.repr")
+                for c, (sf, roles) in calls_of_sinks(g):
+                    if g.qual in want:
+                        pending.append((g, c, sf, roles))
                         continue
-                o.site(g, c, src(c))
+                    bnd = bind_args(c, sf, drop_self=sf.kind == 'method')
+                    fl = flow_of(g)
+                    own = {}
+                    for role, prm in roles.items():
+                        a = bnd.get(prm) if bnd and prm else None
+                        if isinstance(a, ast.Name) and a.id in g.params and all(d.kind == 'param' for d in fl.defs_of(a.id)):
+                            own[role] = a.id
+                    if 'tasks' in own and roles.get('tasks') and len(calls_of_sinks(g)) == 1 \
+                            and not cfg_of(g).conditions(cfg_of(g).node_containing(c)):
+                        # roles that are not handed on (a constant / something else is passed) are lost for every caller
+                        full = {role: (own.get(role) if roles.get(role) else None) for role in roles}
+                        sinks[g.qual] = (g, full)
+                        lost = [role for role, v in full.items() if v is None]
+                        if lost:
+                            lossy[g.qual] = (c, lost)
+                        else:
+                            o.site(g, c, f"{g.qual} forwards its parameters to {sf.qual}: {src(c)[:80]}")
+                        grew = True
+                    else:
+                        pending.append((g, c, sf, roles))
+            if not grew:
+                break
+        for g, c, sf, roles in pending:
+            seen.add(g.qual)
+            b = bind_args(c, sf, drop_self=sf.kind == 'method')
+            if b is None or roles['tasks'] not in b:
+                o.undecided(g, c, c, f"call of {sf.qual} with */** arguments")
+                continue
+            ex = Expander(prog, g, ctx.typer)
+            t = ex.expand(b[roles['tasks']])
+            w = want.get(g.qual)
+            if w is None:
+                o.undecided(g, c, c, "caller of _Repr.repr that the entry-point table does not list")
+                continue
+            sn = g.self_name or 'self'
+            if not match(w.replace('self', sn), t):
+                o.refute(g, c, b[roles['tasks']], f"prints `{src(t)}`, expected `{w}`")
+                continue
+            if g.name == 'print':
+                gone = [p for p in ('fields', 'children', 'theme') if roles[p] is None]
+                if gone:
+                    lc, _l = lossy.get(sf.qual, (c, gone))
+                    o.refute(sf, lc, lc, f"{g.qual} prints through {sf.qual}, which does not hand its `{', '.join(gone)}` argument(s) on "
+                                         f"(`{src(lc)[:70]}`): print() ignores them")
+                    continue
+                bad = [p for p in ('fields', 'children', 'theme')
+                       if not (isinstance(b.get(roles[p]), ast.Name) and b[roles[p]].id == p and p in g.params)]
+                if bad:
+                    o.refute(g, c, c, f"print() does not pass its `{', '.join(bad)}` argument(s) on to _Repr.repr")
+                    continue
+            elif any(v is None for v in roles.values()):
+                o.undecided(g, c, c, f"{g.qual} renders through {sf.qual}, which replaces some of fields / children / theme")
+                continue
+            o.site(g, c, src(c))
         for q in want:
-            prog.func(q)
+            g = prog.func(q)
             if q not in seen:
-                o.refute(prog.func(q), prog.func(q).node, 'no _Repr.repr', f"{q} does not render through _Repr.repr")
+                other = [c for c in walk_no_nested(g.node) if isinstance(c, ast.Call) and (
+                    helper.target_of(c, g) is not None or (isinstance(c.func, ast.Attribute) and isinstance(c.func.value, ast.Name)
+                                                           and c.func.value.id == '_Repr'))]
+                if other:
+                    o.undecided(g, other[0], other[0], f"{q} renders through `{src(other[0])[:70]}`, which the rule cannot follow to _Repr.repr")
+                else:
+                    o.refute(g, g.node, 'no _Repr.repr', f"{q} does not render through _Repr.repr")
     ctx.guarded(o, run)
 
 
@@ -765,10 +1165,43 @@ def _width(ctx):
             if sub:
                 V = subst(V, sub)
             args = facts.flatten_lattice(V, 'max')
+            consumed = set()
             if args is None and match("len($c.text)", V):
-                o.refute(f, st, st, f"the width update `{src(V)[:90]}` keeps no running maximum: the width is that of the last row only, "
-                                    f"not the maximum over all rows")
-                continue
+                # `if len(text) > W[i]: W[i] = len(text)` is the running maximum spelled as a guarded store
+                verdict = None
+                for t, pol in cfg.conditions(cn):
+                    tx = ex.expand(t, cfg.node_containing(t), stop={W})
+                    if sub:
+                        tx = subst(tx, sub)
+                    cm = cmp_oriented(tx, pol, lambda x: same(x, V))
+                    if not cm:
+                        continue
+                    prev = cm[2]
+                    strict = match(f"{W}.setdefault($i, $d)", prev) or match(f"{W}[$i]", prev)
+                    loose = match(f"{W}.get($i, $d)", prev)
+                    if not ((strict or loose) and same((strict or loose)['i'], I)):
+                        continue
+                    if cm[1] in ('>', '>=') and strict:
+                        verdict = ('max', prev, t)
+                    elif cm[1] in ('>', '>='):
+                        verdict = ('get', prev, t)
+                    elif cm[1] in ('<', '<='):
+                        verdict = ('min', prev, t)
+                if verdict and verdict[0] == 'max':
+                    args = [V, verdict[1]]
+                    consumed.add(id(verdict[2]))
+                elif verdict and verdict[0] == 'min':
+                    o.refute(f, st, st, f"the width is replaced only by SHORTER cell texts (`{src(verdict[2])}`): a running minimum, longer "
+                                        f"cells overflow their column")
+                    continue
+                elif verdict:
+                    o.undecided(f, st, st, f"the width is stored only under `{src(verdict[2])}`: a column whose cells are all empty never "
+                                           f"gets an entry in `{W}`, the order of its values may differ from the column order")
+                    continue
+                else:
+                    o.refute(f, st, st, f"the width update `{src(V)[:90]}` keeps no running maximum: the width is that of the last row only, "
+                                        f"not the maximum over all rows")
+                    continue
             if args is None:
                 mins = facts.flatten_lattice(V, 'min')
                 if mins is not None and any(facts.flatten_lattice(a, 'max') is not None for a in mins):
@@ -858,10 +1291,15 @@ def _width(ctx):
             elif idx_loop[1] != 'ok':
                 o.refute(f, idx_loop[0], idx_loop[0].iter, idx_loop[1][1])
                 ok = False
-            conds = cfg.conditions(cn)
+            conds = [(t_, p_) for t_, p_ in cfg.conditions(cn) if id(t_) not in consumed]
             if conds:
-                o.undecided(f, st, st, "the width update is conditional (" + ', '.join(facts.cond_texts(conds)) + ")")
-                ok = False
+                grow = _list_grow_branch(f, st, W, I, R, conds, ex, cfg, fors) if idx_loop and idx_loop[1] == 'ok' else None
+                if grow is not None:
+                    info['list'] = True
+                    o.site(f, grow, f"{W} is a list grown in column order: `{src(grow)}` when the column is new, the running maximum otherwise")
+                else:
+                    o.undecided(f, st, st, "the width update is conditional (" + ', '.join(facts.cond_texts(conds)) + ")")
+                    ok = False
             for n in walk_no_nested(row_loop):
                 if isinstance(n, (ast.Break, ast.Return)):
                     if not cfg.conditions(cfg.node_of(n)) or n in row_loop.body:
@@ -900,12 +1338,29 @@ def _width(ctx):
             if W is None:
                 o.undecided(f, c, wa, "the widths accumulation was not recognised, so the widths list cannot be compared with it")
                 continue
+            if info.get('list'):
+                # the list is filled in place: a rebinding of its name between the width loop and the rendering is part of the value
+                stn_ = cfg.node_of(info['store'])
+                for x in [x for x in ast.walk(w) if isinstance(x, ast.Name) and x.id == W]:
+                    ds = fl.reaching(W, cn)
+                    if len(ds) == 1 and ds[0].kind == 'assign' and ds[0].node is not None and cfg.can_reach(stn_, ds[0].node):
+                        w = subst(w, {W: ex.expand(ds[0].value, ds[0].node, stop={W})})
+                    elif not (len(ds) == 1 and ds[0].kind == 'assign'):
+                        w = None
+                    break
+                if w is None:
+                    o.undecided(f, c, wa, f"`{W}` is re-assigned on some path between the width loop and the rendering")
+                    continue
             forms = (f"[$v for $v in {W}.values()]", f"list({W}.values())", f"[{W}[$k] for $k in range(len({W}))]",
                      f"[{W}[$k] for $k in range(0, len({W}))]", f"[{W}[$k] for $k in sorted({W})]", f"tuple({W}.values())")
+            if info.get('list'):
+                forms = (W, f"list({W})", f"tuple({W})", f"{W}[:]", f"[$v for $v in {W}]", f"[{W}[$k] for $k in range(len({W}))]")
             if any(match(p, w) for p in forms):
                 o.site(f, c, f"widths = {src(w)}")
             elif match(f"sorted({W}.values())", w) or match(f"sorted({W}.values(), $*r)", w) or match(f"list(reversed({W}.values()))", w) \
-                    or match(f"set({W}.values())", w):
+                    or match(f"set({W}.values())", w) \
+                    or (info.get('list') and (match(f"sorted({W})", w) or match(f"sorted({W}, $*r)", w) or match(f"list(reversed({W}))", w)
+                                              or match(f"{W}[::-1]", w))):
                 o.refute(f, c, wa, f"the widths list is `{src(w)}`: widths are no longer in column order")
                 continue
             elif isinstance(w, ast.Subscript) and any(match(p, w.value) for p in forms):
@@ -1009,6 +1464,48 @@ def _width(ctx):
                     o.undecided(f, n, n, "line break is not emitted as `if res is not empty: res += '\\n'` before the row")
     ctx.guarded(o2, render)
 
+
+
+def _list_grow_branch(f, st, W, I, R, conds, ex, cfg, fors):
+    """the width update `W[i] = max(.., W[i])` sits under `i < len(W)` and the other branch is `W.append(len(cell_i.text))`:
+    the list spelling of `W.setdefault(i, 0)` (the index loop visits 0..len(row)-1 in order, so a new column is always the
+    next list position).  Returns the append statement, else None"""
+    if len(conds) != 1 or not isinstance(I, ast.Name):
+        return None
+    test, pol = conds[0]
+    c = cmp_oriented(test, pol, lambda x: isinstance(x, ast.Name) and x.id == I.id)
+    if not (c and c[1] == '<' and match(f"len({W})", c[2])):
+        return None
+    ifs = [n for n in walk_no_nested(f.node) if isinstance(n, ast.If) and n.test is test]
+    if len(ifs) != 1:
+        return None
+    other = ifs[0].orelse if pol else ifs[0].body
+    if len(other) != 1 or not (isinstance(other[0], ast.Expr) and match(f"{W}.append($x)", other[0].value)):
+        return None
+    x = ex.expand(other[0].value.args[0], cfg.node_of(other[0]), stop={W})
+    sub = _enumerate_subst(fors, ex, cfg)
+    if sub:
+        x = subst(x, sub)
+    args = facts.flatten_lattice(x, 'max') or [x]
+    lens = [a for a in args if match("len($c.text)", a)]
+    if len(lens) != 1 or any(facts.const_num(a) is None for a in args if a is not lens[0]):
+        return None
+    cell = _cell_of(match("len($c.text)", lens[0])['c'], idx=I)
+    if not (cell and isinstance(cell[0], ast.Name) and cell[0].id == R):
+        return None
+    # W starts empty and nothing else changes it
+    defs = [d for d in flow_of(f).reaching(W, cfg.node_of(st)) if d.kind != 'other']
+    if len(defs) != 1 or defs[0].value is None or not (isinstance(defs[0].value, ast.List) and not defs[0].value.elts or (defs[0].value is not None and match("list()", defs[0].value))):
+        return None
+    for n in walk_no_nested(f.node):
+        if isinstance(n, ast.Call) and isinstance(n.func, ast.Attribute) and isinstance(n.func.value, ast.Name) and n.func.value.id == W \
+                and n is not other[0].value and n.func.attr in ('append', 'extend', 'insert', 'pop', 'remove', 'clear', 'sort', 'reverse'):
+            return None
+        if isinstance(n, ast.Assign) and n is not st and any(isinstance(t, ast.Subscript) and root_name(t) == W for t in n.targets):
+            return None
+        if isinstance(n, (ast.AugAssign, ast.Delete)) and any(root_name(t) == W for t in (n.targets if isinstance(n, ast.Delete) else [n.target])):
+            return None
+    return other[0]
 
 
 def _widths_elem(w, W):
@@ -1335,6 +1832,11 @@ def _pad_case(o, f, r, v, parts, conds, tp, wp):
     else:
         nxt = parts[j + 1] if j + 1 < len(parts) else None
         verdict = _pad_part(nxt, tp, wp)
+        if verdict is None and j > 0 and _pad_part(parts[j - 1], tp, wp) == 'ok':
+            o.refute(f, r, parts[j - 1], f"the return under [{conds}] yields `{shown[:80]}`: the padding is put in FRONT of the text (right "
+                                         f"aligned), so the text no longer starts at the column's left edge and a name cell loses its "
+                                         f"three-spaces-per-level indentation")
+            return
         if verdict is None:
             o.refute(f, r, r, f"the return under [{conds}] yields `{shown[:80]}`: the text is not padded to `{wp}` on this path, "
                               f"so the cell is narrower than its column")
@@ -1862,10 +2364,37 @@ def _usage(ctx):
         else:
             ob.undecided(f, node, v, f"{what} `{src(v)[:80]}` is not {fn}() over the dates of all stored rows")
 
+    def delegate(f0):
+        """__repr__ that hands the table building to a package function: (function, name of the report in it, pattern of
+        the stored rows in it); (f0, self, self.__rows) when it builds the table itself"""
+        sn0 = f0.self_name
+        rows0 = f"{sn0}._ResourceUsageReport__rows"
+        if facts.calls_named(f0, 'new_row'):
+            return f0, sn0, rows0
+        helper = Counter(ctx)
+        ex0 = Expander(prog, f0, ctx.typer, inline=False)
+        cands = []
+        for r in [n for n in walk_no_nested(f0.node) if isinstance(n, ast.Return) and isinstance(n.value, ast.Call)]:
+            g = helper.target_of(r.value, f0)
+            if g is None or not facts.calls_named(g, 'new_row'):
+                continue
+            b = bind_args(r.value, g, drop_self=g.kind == 'method')
+            if b is None:
+                continue
+            gfl = flow_of(g)
+            fixed = lambda p: all(d.kind == 'param' for d in gfl.defs_of(p))
+            rp = [p for p, a in b.items() if match(rows0, ex0.expand(a, cfg_of(f0).node_of(r))) and fixed(p)]
+            sp = [p for p, a in b.items() if isinstance(a, ast.Name) and a.id == sn0 and fixed(p)]
+            if g.kind == 'method' and isinstance(r.value.func, ast.Attribute) and match(sn0, r.value.func.value):
+                sp = [g.self_name]
+            if len(sp) == 1 and len(rp) <= 1:
+                cands.append((g, sp[0], rp[0] if rp else f"{sp[0]}._ResourceUsageReport__rows"))
+        if len(cands) == 1:
+            return cands[0]
+        return f0, sn0, rows0
+
     def run(_):
-        f = prog.func(USAGE)
-        sn = f.self_name
-        rows = f"{sn}._ResourceUsageReport__rows"
+        f, sn, rows = delegate(prog.func(USAGE))
         cfg, fl = cfg_of(f), flow_of(f)
         ex = Expander(prog, f, ctx.typer)
         tables = _table_names(ctx, f)
